@@ -36,7 +36,8 @@ add("C07", "TLC exhaustive on FieldImmut.tla + replay of TLC behaviours into rea
     "Immutable and Protected over all histories of <=7 (quick) / <=9 (thorough) operations (every public constructor, every handle, views, "
     "five kinds of writes through arrays and three through wrappers). Every history TLC emits (exhaustive to depth 4/5, simulated to depth 10) is "
     "replayed on the real objects and every live field and every operator built from one is compared with its construction snapshot after every "
-    "step; a seeded random driver of the real objects is validated against the spec in the other direction.",
+    "step; a seeded random driver of the real objects is validated against the spec in the other direction. Source arrays come in three flavours "
+    "(plain ndarray, ndarray subclass, memory-mapped file) and PS_field (the array a user callable hands out) is one of the constructors.",
     TRUST + "writable aliases created before construction are outside the quantifier.")
 add("C21", "TLC exhaustive on RandomCtx.tla (action properties) + behaviour replay into nifty.cl.random + trace validation of drivers, of the library's own RNG use and of the repository's own RNG tests (test_random.py run under the recorder) + ExecStrategy.tla configuration runs",
     "The RNG stack (seed identities, spawn counters, draw positions, open contexts, getState/setState) is specified in RandomCtx.tla; TLC checks that "
@@ -80,7 +81,8 @@ add("C26", "TLC exhaustive on SampleListFS.tla and StreamStat.tla + replay of TL
     "replayed with the real SampleList / ResidualSampleList (fields and multi-fields) in a scratch directory under a process-per-rank communicator; every "
     "load after a successful save must return exactly the saved samples in order on every rank. StreamStat.tla gives mean and unbiased variance of all "
     "integer streams up to length 4/6 as exact rationals (and checks the Welford recurrence against the closed form); StatCalculator, sample_stat, "
-    "average and the HDF5 export are compared with them.",
+    "average and the HDF5 export are compared with them; ShiftInvariant (a common offset leaves the variance alone) is replayed with an offset of 1e8. "
+    "The long-list configuration (lists of 2, 10, 11, 12 samples, two-digit indices) is enumerated for all overwrite histories and replayed.",
     TRUST + "the simulated communicator (no libmpi in the sandbox).")
 
 add("C22", "TLC exhaustive on Distribute.tla + trace validation of the per-rank draw sequences of the real code under a simulated communicator (DistributeTrace.tla) + bit-identity of results over 1..6/7 tasks",
@@ -119,7 +121,9 @@ add("C14", "TLC exhaustive on ControllerCG.tla + replay of controller behaviours
     "(absolute/relative), Grad-inf-norm, relative / absolute / stochastic Delta-energy controllers with synthetic energies realising each hit or miss. "
     "The real CG runs on generated HPD systems (n<=25/40, condition up to 1e3/1e6, real/complex, with/without preconditioner, reset periods 1-20, "
     "all six controller types, zero and non-zero start) through a recording controller and operator; traces are validated against the skeleton and carry "
-    "ground truth (true residual vs criterion, value/gradient consistency). InversionEnabler.inverse_times/adjoint_inverse_times must solve the system.",
+    "ground truth (true residual vs criterion, value/gradient consistency, a return without the controller only for a vanishing true residual); right-hand "
+    "sides of magnitude 1e-5 .. 1e3; a CONVERGED that no resolution of the harness-evaluated hits explains is a ConvergedLaw violation. "
+    "InversionEnabler.inverse_times/adjoint_inverse_times must solve the system.",
     TRUST + "criterion values within 1e-9 of the threshold are left to TLC; residual margin 1e-10*cond*|b|.")
 
 add("C16", "TLC exhaustive on Descent.tla (minimiser loop + L-BFGS ring buffers) and LineSearch.tla + trace validation of real minimiser runs (DescentTrace.tla) and of every trial of real line searches (LineSearchTrace.tla) with recomputed Wolfe conditions",
@@ -145,11 +149,13 @@ add("C01", "TLC exhaustive on OpAlgebra.tla (operator expressions as SSA program
 add("C12", "TLC on LikelihoodRe.tla (exact rational Fisher matrices of every nifty.re likelihood, pulled back, summed and frozen) + replay of every instance into nifty.re (metric, left/right square root, transformation)",
     "The Fisher information of Gaussian, Student-t, Poisson, categorical, variable-covariance Gaussian / Student-t and the N-dimensional variable-covariance "
     "Gaussian (covariance and precision parametrisation) at rational points is transcribed into TLA+ over exact rationals, together with the composition "
-    "laws (pull-back through integer linear models, sums of likelihoods sharing parameters, freezing a point estimate); TLC enumerates 148 instances and "
+    "laws (pull-back through integer linear models, sums of likelihoods sharing parameters, freezing a point estimate); TLC enumerates 205 instances and "
     "checks symmetry and non-negative diagonals. Every instance is built with nifty.re (three ways of passing the Gaussian covariance) and the dense "
     "matrices of metric, left_sqrt_metric and right_sqrt_metric (on the DECLARED tangent space) are compared: M = Fisher, M = L R, R = L^H; L = Jt^H for "
     "the exact transformations (also amended), E_data[Jt^H Jt] = M by exact moment substitution for the variable-covariance Gaussian; batched rows "
-    "along either axis and dict-shaped data must give the block-diagonal matrix of the per-row spec matrices.",
+    "along either axis and dict-shaped data must give the block-diagonal matrix of the per-row spec matrices. Complex instances: the variable-covariance "
+    "Gaussian on complex data (F = diag(s^2, 4/s^2)) and complex Gaussian data under a complex linear model C = A + iB on real or complex parameters "
+    "(M = C^H N^-1 C, Hermitian on the spec; L o R = M on every tangent and R adjoint to L w.r.t. the real inner product on the code).",
     TRUST + "float comparison 1e-10 relative.")
 add("C13", "TLC exhaustive on OpAlgebra.tla (sampling obligations sf/si, PSD law) + exact covariance of draw_sample by unit excitations through Random.normal for every emitted program; SamplingEnabler by numerical inversion",
     "OpAlgebra.tla carries for every operator expression whether it MUST be able to draw a sample forward / from its inverse (positive scalings, diagonals, "
@@ -312,7 +318,7 @@ add("C34", "TLC on EigBatches.tla (batch schedule of the resumable eigenvalue co
     "and V A V^T = T, the quadrature is exact per probe, the stochastic log-determinant is exact for diagonal operators.",
     TRUST + "the estimators below full order (stochastic error) are not covered.")
 
-add("C32", "TLC on Leapfrog.tla (exact leapfrog trajectories; reversibility and symplecticity checked) and NutsTree.tla (U-turn bookkeeping of the iterative tree doubling = balanced sub-trees of the recursive definition) + replay into leapfrog_step, iterative_build_tree (is_euclidean_uturn wrapped from outside) and generate_hmc_acc_rej",
+add("C32", "TLC on Leapfrog.tla (exact leapfrog trajectories; reversibility and symplecticity checked), HmcChain.tla (key lineage and bookkeeping of the chain classes, with trace validation of recorded chains by HmcChainTrace.tla and replay of segmentations) and NutsTree.tla (U-turn bookkeeping of the iterative tree doubling = balanced sub-trees of the recursive definition) + replay into leapfrog_step, iterative_build_tree (is_euclidean_uturn wrapped from outside) and generate_hmc_acc_rej",
     "Leapfrog.tla: one action per integrator step over Rat for two quadratic potentials and a quartic one, diagonal inverse mass matrices, dyadic "
     "(also negative) step sizes; TLC checks momentum-flip reversibility, that a negative step undoes a positive one and M^T J M = J for the "
     "accumulated linear map; trajectories are replayed exactly into leapfrog_step; on a non-polynomial potential the real stepper is checked for "
@@ -320,7 +326,11 @@ add("C32", "TLC on Leapfrog.tla (exact leapfrog trajectories; reversibility and 
     "(population count / trailing ones) are exactly the aligned blocks ending there, no slot is stale, the whole sub-tree is tested at its end; "
     "the real iterative_build_tree is run with Python control flow and a wrapped is_euclidean_uturn: tested pairs, sub-tree ends and proposal "
     "leaf are mapped to leaf indices on the orbit and compared. generate_hmc_acc_rej: accepted state is the start or the flipped end, the decision "
-    "is the Bernoulli draw of min(1, exp(H0 - H1)).",
+    "is the Bernoulli draw of min(1, exp(H0 - H1)). HmcChain.tla: generate_n_samples of HMCChain / NUTSChain as a state machine (split, momentum, "
+    "transition, carry, update; Begin/End per call): TLC checks FreshKeys (every draw has its own key, no key is split and drawn from), KeyAdvances, "
+    "RunningMean, RowsAreStates for all behaviours of 3/4 transitions and refutes four defective designs; real chains are recorded through wrappers "
+    "installed from outside (keys as paths below the root key, positions as ids) and validated by HmcChainTrace.tla; the segmentations TLC enumerates "
+    "are replayed: a run cut into several calls that continue from the returned core state visits the states of the uncut run, compiled loop = Python loop.",
     TRUST + "the statistical part of the statement (long chains reproduce the moments) has no finite-state content and is NOT decided by this check.")
 
 add("C02", "TLC on IndexOps.tla (exact sparse matrices of the index-map operators incl. contraction / integration, transposition, inserters, slicing, stepped slices; permutation and slice-length laws) + replay into the real operators (forward and adjoint) + adjoint / linearity / inverse / target / input-unchanged laws over a catalogue of every exported linear operator class",
